@@ -25,7 +25,11 @@ RULE = ("(1) tiers8 - exhaustive enumeration of the 8-bit domain: for signed and
         "interval end points +-1. (3) index - generated field configurations and value multisets (always including the "
         "domain extremes) are indexed; NumericRange / DateRange for generated (start, end, startexcl, endexcl) incl. "
         "None must return exactly the documents whose value lies in the interval, sortedby must order by value, and "
-        "out-of-domain values must be rejected at add_document and at query time. Non-trivial: tiers8 = interval with "
+        "out-of-domain values must be rejected at add_document and at query time. (4) partialdates - enumeration of "
+        "every typed date precision YYYY[MM[DD[hh[mm[ss]]]]] over leap, non-leap and century years, all months, the "
+        "days on which month lengths differ and the first/last hour, minute, second: DATETIME.parse_query / parse_range "
+        "(what the query parser calls) must match exactly the documents dated at the first and last microsecond of "
+        "the period and not the ones one microsecond outside. Non-trivial: tiers8 = interval with "
         ">=2 tiers used; codec = >=2 distinct values; index = a range with a non-empty, non-total result on a field with "
         "shift_step>0. Distinct by SHA-1 of the case.")
 ASSUMPTIONS = [
@@ -407,8 +411,84 @@ def run_index(case, out):
     out.label("kind_" + case["kind"], "step_%d" % case["step"], "sortable" if case["sortable"] else "posting_sort")
 
 
+# ---------------------------------------------------------------------------------------------------- partial dates
+
+PD_YEARS = [1, 1600, 1900, 1999, 2000, 2004, 2011, 2012, 2100, 9999]
+
+
+def partialdates_enum(tier, shard, nshards):
+    """every typed precision YYYY[MM[DD[hh[mm[ss]]]]] over leap / non-leap / century years, all months, the days on
+    which month lengths differ, and the first / last hour, minute and second"""
+    import calendar
+    i = 0
+    for y in PD_YEARS:
+        combos = [[y]]
+        for m in range(1, 13):
+            combos.append([y, m])
+            last = calendar.monthrange(y, m)[1]
+            for d in sorted(set([1, 28, last])):
+                combos.append([y, m, d])
+                for h in (0, 23):
+                    combos.append([y, m, d, h])
+                    for mn in (0, 59):
+                        combos.append([y, m, d, h, mn])
+                        for sec in (0, 59):
+                            combos.append([y, m, d, h, mn, sec])
+        for c in combos:
+            if i % nshards == shard:
+                yield {"parts": c}
+            i += 1
+
+
+def _pd_bounds(parts):
+    import calendar
+    lo = list(parts) + [1, 1, 0, 0, 0][len(parts) - 1:]
+    hi = list(parts)
+    while len(hi) < 6:
+        n = len(hi)
+        hi.append(12 if n == 1 else calendar.monthrange(hi[0], hi[1])[1] if n == 2 else [23, 59, 59][n - 3])
+    return datetime.datetime(*lo), datetime.datetime(*(hi + [999999]))
+
+
+def run_partialdates(case, out):
+    parts = case["parts"]
+    text = "%04d" % parts[0] + "".join("%02d" % x for x in parts[1:])
+    lo, hi = _pd_bounds(parts)
+    fld = fields.DATETIME(stored=True)
+    us = datetime.timedelta(microseconds=1)
+    probes = {"lo": lo, "hi": hi, "mid": lo + (hi - lo) // 2}
+    if lo > datetime.datetime.min + us:
+        probes["below"] = lo - us
+    if hi < datetime.datetime.max - us:
+        probes["above"] = hi + us
+    expected = sorted(k for k in probes if k in ("lo", "hi", "mid"))
+    # the neighbouring period of the same precision, for a two-ended range
+    schema = fields.Schema(k=fields.ID(stored=True), d=fld)
+    ix = RamStorage().create_index(schema)
+    w = ix.writer()
+    for k in sorted(probes):
+        w.add_document(k=k, d=probes[k])
+    w.commit()
+    q1 = fld.parse_query("d", text)
+    q2 = fld.parse_range("d", text, text, False, False)
+    q3 = fld.parse_range("d", text, None, False, False)
+    q4 = fld.parse_range("d", None, text, False, False)
+    with ix.searcher() as s:
+        for name, q, exp in (("term", q1, expected), ("range", q2, expected),
+                             ("from", q3, sorted(k for k in probes if k != "below")),
+                             ("upto", q4, sorted(k for k in probes if k != "above"))):
+            got = sorted(h["k"] for h in s.search(q, limit=None))
+            if got != exp:
+                out.fail("c13.partial_date_%s_wrong" % name, {"typed": text, "query": repr(q)[:200], "got": got,
+                                                               "expected": exp, "period": [str(lo), str(hi)]})
+    out.nontrivial = len(parts) < 6 and "below" in probes and "above" in probes
+    out.key = case
+    out.label("precision_%d" % len(parts))
+
+
 SUBS = {
     "tiers8": Sub(run_tiers8, enum=tiers8_enum, quick_shards=8),
     "codec": Sub(run_codec, lambda tier: codec_case(), quick=400, thorough=6000, quick_shards=8),
     "index": Sub(run_index, lambda tier: index_case(), quick=120, thorough=2000, quick_shards=8),
+    "partialdates": Sub(run_partialdates, enum=partialdates_enum, quick_shards=8),
 }
